@@ -162,6 +162,10 @@ impl<'a, H: HashChain> InMemoryHssSignature<'a, H> {
 
         let signature = InMemoryLmsSignature::<'a, H>::new(data.get(index..)?)?;
 
+        if index + signature.len() != data.len() {
+            return None;
+        }
+
         Some(Self {
             level,
             signed_public_keys,
